@@ -63,6 +63,18 @@ def worker(prop, tier, seed, widx, nworkers, out, replay=None):
         gen = iter([replay])
     else:
         gen = mod.cases(rng, budget, widx, nworkers, tier)
+    every = getattr(mod, "PRELUDE_EVERY", 40)
+
+    def with_preludes(g):
+        k = 0
+        for c in g:
+            k += 1
+            if every and k % every == 0:
+                yield {"__prelude__": k}
+            yield c
+    if replay is None and every:
+        gen = with_preludes(gen)
+    from .props import common as _common
     for case in gen:
         if replay is None:
             if n >= budget and not getattr(mod, "EXHAUSTIVE", False):
@@ -75,7 +87,11 @@ def worker(prop, tier, seed, widx, nworkers, out, replay=None):
         M.new_case()
         K.reset()
         try:
-            res = mod.judge(case)
+            if isinstance(case, dict) and "__prelude__" in case:
+                res = _common.judge_prelude(case, verdict=getattr(mod, "SENTINEL", False))
+                res["nontrivial"] = False
+            else:
+                res = mod.judge(case)
         except Exception as e:  # a bug in the harness/oracle: never folded into ok
             res = core.Res(status=core.ORACLE_ERROR, cells=[], nontrivial=False)
             if len(errors) < 5:
@@ -107,7 +123,7 @@ def worker(prop, tier, seed, widx, nworkers, out, replay=None):
                 viols.append({"key": res["key"], "what": res["what"], "case": enc(case),
                               "detail": res.get("detail")})
         elif st == core.OK and (len(samples) < 2 or (len(samples) < 6 and rng.random() < 0.002)):
-            samples.append({"case": mod.describe(case) if hasattr(mod, "describe") else show(case),
+            samples.append({"case": (mod.describe(case) if hasattr(mod, "describe") and "__prelude__" not in case else show(case)),
                             "outcome": res.get("outcome", "ok"), "cells": res.get("cells", [])[:8]})
     extra = mod.worker_report() if hasattr(mod, "worker_report") else {}
     hp = out + ".hashes"
